@@ -39,6 +39,18 @@ Proof.
   split; [eapply made_payer; eassumption | eapply made_payer_first; eassumption].
 Qed.
 
+(* the same at the level of parallel groups: a final parallel group is the optimized form of one
+   original group or a merge of SINGLE groups whose parallel groups all allowed merging; its flag
+   is the first source's flag *)
+Theorem c41_final_parallel_groups_made : forall o ts allow tg p,
+  In p (tg_optimize o ts allow tg) -> p = DEFAULT_PG \/ exists srcs, PMade o ts allow tg p srcs.
+Proof. exact tg_optimize_pmade. Qed.
+
+Theorem c41_pmade_flags : forall o ts allow T P srcs, PMade o ts allow T P srcs ->
+  (exists s r, srcs = s :: r /\ p_merge P = p_merge s) /\
+  ((2 <= length srcs)%nat -> forall s, In s srcs -> p_merge s = true).
+Proof. exact pmade_flags. Qed.
+
 (* limits: everything `add` lets in passed validate_one, and after optimize every group still
    respects max_instructions_per_tx and its estimated size (measured with the compute-budget
    instructions and either without or with the memo) is within max_transaction_size *)
